@@ -449,6 +449,21 @@ pub fn interpret(p: &Prog, plan: &Plan) -> Expect {
             se.branches[b] = Some(BranchStep { calls, ops, val: Some(v), gates });
         }
         steps.push(se);
+        // a tagging custom joiner changes the payload of every joined value (not thread handles,
+        // which the spawn joiner passes through untouched)
+        if p.opts.joiner.is_some() && !(kind.is_spawn && !kind.is_async) {
+            let act = p.active(s);
+            if act.len() > 1 {
+                for (pos, &b) in act.iter().enumerate() {
+                    let t = crate::joiners::JTAG_BASE + pos as u32;
+                    vals[b] = match vals[b] {
+                        Val::Ok(h) => Val::Ok(mixf(h, t)),
+                        Val::Err(h) => Val::Err(mixf(h, t)),
+                        Val::Nil => Val::Nil,
+                    };
+                }
+            }
+        }
         if kind.is_try {
             let f: Vec<usize> = p.active(s).into_iter().filter(|&b| !vals[b].is_ok()).collect();
             if !f.is_empty() {
